@@ -12,5 +12,7 @@ for id in C01 C02 C04 C06 C07 C08 C10 C14 C15 C16 C17 C18 C19; do
     echo "$id $idx"
   done
 done | xargs -P 6 -L 1 bash -c 'timeout 900 valgrind -q --error-exitcode=9 --num-callers=12 build/plain/vsim run1 $0 $1 > /tmp/valgrind_sample/$0.$1.out 2>&1; echo "$0 $1 rc=$?" >> /tmp/valgrind_sample/summary'
+# the regression corpus too (some entries, e.g. uninitialised-stack uses, are visible to memcheck only)
+for f in regress/*.json; do b=$(basename $f .json); timeout 900 valgrind -q --error-exitcode=9 --num-callers=12 build/plain/vsim replay $f --inproc > $out/regress.$b.out 2>&1; echo "regress $b rc=$?" >> $out/summary; done
 echo "runs: $(wc -l < $out/summary)  with memcheck errors: $(grep -c 'rc=9' $out/summary)"
 grep -h -A6 -E "Conditional jump|Use of uninitialised|Invalid read|Invalid write|Syscall param" $out/*.out | grep -E "^==[0-9]+==    (at|by)" | sed 's/^==[0-9]*== *//' | grep -v "vsim_\|sim/" | sort | uniq -c | sort -rn | head -30
